@@ -231,7 +231,7 @@ PROPS["C11"] = {
              "real server through it; on success a transfer phase over the same path sends 1 byte .. several fragments both ways (sizes at fragment boundaries) with content that changes style "
              "every 512 bytes (random, zero runs, 0xFF runs, CRLF text, repeated byte, all 256 values, mixed-case letters); non-trivial = handshake returned (and, if nil, the transfer was judged); "
              "distinct = path x negotiated parameters"),
-    "probes": ["handshakes_terminated", "handshakes_succeeded", "handshakes_failed", "transfers_completed", "path_name_mangled", "path_type_refused", "path_answer_too_big", "path_8bit_refused"],
+    "probes": ["handshakes_terminated", "handshakes_succeeded", "handshakes_failed", "transfers_completed", "path_name_mangled", "path_type_refused", "path_answer_too_big", "path_8bit_refused", "path_transient_servfail", "path_transient_loss"],
     "technique": "deterministic simulation: swarm of DNS path behaviours (middlebox fault model) x real handshake, termination bound + success-implies-fidelity-on-the-same-path oracle",
     "level_text": ("Seeded exploration over a path-behaviour family. Termination: Handshake returns within 30 simulated minutes on every path. Soundness of success: if it returned nil, data sent both ways "
                    "over the same path must arrive intact (PRF prefix/equality) and completely within 40 simulated minutes; a handshake error is an allowed outcome."),
